@@ -29,12 +29,11 @@ open Stdlib
 /-- `Value::from(NaiveDateTime)` on a millisecond count: one division -/
 def encodeMs (ms : Int) : Value N := .num (NumOps.div (NumX.ofInt ms) dayLen)
 
-/-- `map_err(|e| NativeError::from(e.to_string()))`; `none` (unmodelled) only for `PErr.intOverflow` -/
-def finish (r : PRes Int) : Option (Res N) :=
+/-- `map_err(|e| NativeError::from(e.to_string()))` and `Value::from` -/
+def finish (r : PRes Int) : Res N :=
   match r with
-  | .ok ms => some (.ok (encodeMs ms))
-  | .error .intOverflow => none
-  | .error e => some (.error (custom e.msg))
+  | .ok ms => .ok (encodeMs ms)
+  | .error e => .error (custom e.msg)
 
 /-- `reject_leap_second` -/
 def rejectLeap (t : NTime) : PRes Unit := if t.nano ≥ 1000000000 then .error .outOfRange else .ok ()
@@ -58,10 +57,10 @@ def stringToDate (params : List (Value N)) : Option (Res N) :=
   | .error e => some (.error e)
   | .ok fmt =>
     match params with
-    | .str s :: _ => finish (do
-        let p ← parseAll (items fmt) s
-        let d ← p.toNaiveDate
-        pure (d * msPerDay))
+    | .str s :: _ =>
+      match parseAll (items fmt) s with
+      | .error e => some (.error (custom e.msg))
+      | .ok p => if p.dateOverflow then none else some (finish (p.toNaiveDate.map fun d => d * msPerDay))
     | _ :: _ => some (.error .wrongParameterType)
     | [] => some (.error (.wrongParameterCount 1))
 
@@ -70,11 +69,11 @@ def stringToTime (params : List (Value N)) : Option (Res N) :=
   | .error e => some (.error e)
   | .ok fmt =>
     match params with
-    | .str s :: _ => finish (do
+    | .str s :: _ => some (finish (do
         let p ← parseAll (items fmt) s
         let t ← p.toNaiveTime
         rejectLeap t
-        pure (NDT.millis ⟨0, t⟩))
+        pure (NDT.millis ⟨0, t⟩)))
     | _ :: _ => some (.error .wrongParameterType)
     | [] => some (.error (.wrongParameterCount 1))
 
@@ -83,11 +82,13 @@ def stringToDatetime (params : List (Value N)) : Option (Res N) :=
   | .error e => some (.error e)
   | .ok fmt =>
     match params with
-    | .str s :: _ => finish (do
-        let p ← parseAll (items fmt) s
-        let t ← p.toNaiveDatetime 0
-        rejectLeap t.time
-        pure t.millis)
+    | .str s :: _ =>
+      match parseAll (items fmt) s with
+      | .error e => some (.error (custom e.msg))
+      | .ok p => if p.datetimeOverflow 0 then none else some (finish (do
+          let t ← p.toNaiveDatetime 0
+          rejectLeap t.time
+          pure t.millis))
     | _ :: _ => some (.error .wrongParameterType)
     | [] => some (.error (.wrongParameterCount 1))
 
